@@ -193,6 +193,33 @@ def strip_interactive(out):
     return lines
 
 
+
+def interactive_pass(col, exe, env, scenarios, tag="interactive"):
+    """Feed each scenario (list of physical lines) to `bloc -i`; the printed results must equal those of the library running
+    the same statements one at a time with its own error cleanup."""
+    ijobs = []
+    for name, lines in scenarios:
+        ijobs.append((exe, env, ["-i"], ("\n".join(lines) + "\n").encode(), None))
+    with concurrent.futures.ThreadPoolExecutor(max_workers=NWORK) as ex:
+        ires = list(ex.map(run_cli, ijobs))
+    icases = [Case("i%d" % i, [op_ctx(0, True)] + [op_run(ln, route="istmt2") for ln in stmts_of(lines)] + [op_out(0)], {"name": name})
+              for i, (name, lines) in enumerate(scenarios)]
+    iref = []
+    for i in range(0, len(icases), 200):
+        iref += run_batch(icases[i:i + 200])
+    for (name, lines), rr, (rc, out, err, _) in zip(scenarios, iref, ires):
+        col.count(("-i", name, rc))
+        got = [l for l in strip_interactive(out) if not l.startswith("Error")]
+        lib_out = unhex(rr["steps"][-1].get("out", "")).decode("utf-8", "replace") if rr.get("st") == "done" and rr.get("steps") else "<crash>"
+        want = [l for l in lib_out.split("\n") if l.strip() != ""]
+        det = {"lines": lines, "exit": rc, "stdout": out[:1500].decode("latin-1"), "stderr": err[:300].decode("latin-1"), "library_stdout": lib_out}
+        cls = name.split("#")[0]
+        if rc not in (0, 1):
+            col.viol("%s:exit:%s" % (tag, cls), "bloc -i (%s): exit %s" % (name, rc), det)
+        elif got != want:
+            col.viol("%s:transcript:%s" % (tag, cls), "bloc -i (%s): printed results %r, the library running the same statements prints %r" % (name, got, want), det)
+
+
 def run(tier):
     t0 = time.time()
     exe, env = exe_env()
@@ -300,26 +327,7 @@ def run(tier):
         else:
             if rc != 1 or not err.strip():
                 col.viol("exit-status:-e:error-not-reported", "bloc -e %s: exit %s stderr %r although the library reports %s" % (e, rc, err[:200], ex_step), det)
-    # interactive transcripts
-    ijobs = []
-    for name, lines in INTERACTIVE:
-        ijobs.append((exe, env, ["-i"], ("\n".join(lines) + "\n").encode(), None))
-    with concurrent.futures.ThreadPoolExecutor(max_workers=NWORK) as ex:
-        ires = list(ex.map(run_cli, ijobs))
-    # reference: the same lines as one source text through the interactive route of the library, with the library's own cleanup on error
-    icases = [Case("i%d" % i, [op_ctx(0, True)] + [x for ln in stmts_of(lines) for x in (op_run(ln, route="istmt2"), )] + [op_out(0)], {"name": name})
-              for i, (name, lines) in enumerate(INTERACTIVE)]
-    iref = run_batch(icases)
-    for (name, lines), rr, (rc, out, err, _) in zip(INTERACTIVE, iref, ires):
-        col.count(("-i", name, rc))
-        got = [l for l in strip_interactive(out) if not l.startswith("Error")]
-        lib_out = unhex(rr["steps"][-1].get("out", "")).decode("utf-8", "replace") if rr.get("st") == "done" else "<crash>"
-        want = [l for l in lib_out.split("\n") if l.strip() != ""]
-        det = {"lines": lines, "exit": rc, "stdout": out[:1500].decode("latin-1"), "stderr": err[:300].decode("latin-1"), "library_stdout": lib_out}
-        if rc not in (0, 1):
-            col.viol("interactive:exit:%s" % name, "bloc -i (%s): exit %s" % (name, rc), det)
-        elif got != want:
-            col.viol("interactive:transcript:%s" % name, "bloc -i (%s): printed results %r, the library running the same statements prints %r" % (name, got, want), det)
+    interactive_pass(col, exe, env, INTERACTIVE)
     # save / load
     for name, lines in SAVELOAD:
         path = os.path.join(d, "saved-%s.bloc" % name)
